@@ -22,6 +22,7 @@
 //verif:stub (*encoding/json.Decoder).InputOffset -> stubInputOffsetS
 //verif:stub strings.EqualFold -> stubEqualFoldS
 //verif:stub (time.Time).Zone -> stubZoneS
+//verif:stub unicode/utf8.ValidString -> stubValidStringS
 //verif:stub (time.Time).UTC -> stubUTCS
 //verif:stub (crypto.Hash).Available -> stubHashAvail
 //verif:stub (crypto.Hash).New -> stubHashNewS
@@ -100,6 +101,32 @@ type timeText struct {
 }
 
 var timeTexts []timeText
+
+
+// ---- texts. JSON and CBOR text strings are Unicode: a Go string that is not valid UTF-8 is written by encoding/json
+// with U+FFFD in place of the offending bytes and by the CBOR encoder as it is - which the CBOR decoder then refuses.
+// Whether a text atom is valid UTF-8 is an arbitrary fact about it (memoised); concrete texts of the harness are ASCII.
+type utf8RecS struct {
+	s     string
+	valid bool
+}
+
+var utf8LogS []utf8RecS
+
+func stubValidStringS(s string) bool {
+	for _, r := range utf8LogS {
+		if rt.Same(r.s, s) {
+			return r.valid
+		}
+	}
+	v := true
+	if !rt.IsConcrete(s == "") { // an atom (comparisons with a concrete text are symbolic)
+		v = rt.Bool(rt.Name("text.is.valid.utf8"))
+		rt.Assume(rt.Implies(len(s) == 0, v)) // the empty text is valid
+	}
+	utf8LogS = append(utf8LogS, utf8RecS{s, v})
+	return v
+}
 
 // ---- zones. time.Time.MarshalJSON writes RFC 3339: local clock reading + zone offset in whole MINUTES. A time whose
 // location has an offset with a seconds part therefore reads back as another instant (off by offset % 60 seconds); a
